@@ -178,19 +178,29 @@ theorem scard_absent (c : Ctx) (s : State) (k : Bytes) (h : s.lookup c.db k = no
   have ha : ([b "scard", k].length == 2) = true := rfl
   rw [ha, run_withSet_absent c s _ k _ _ _ _ h]
 
-/-- **SMEMBERS reports the current members** (non-empty set): an array of exactly the members, one bulk
-    string each, in an order left to Go map iteration. Partial: a stored empty set answers the bare `*0`
-    (class `empty-array-without-terminator`). -/
-theorem smembers_partial (c : Ctx) (s : State) (k : Bytes) (ms : List Bytes) (ex : Option Int)
-    (h : s.lookup c.db k = some ⟨.set 0 ms, ex⟩) (hlive : (⟨.set 0 ms, ex⟩ : Entry).expired c.now = false)
-    (hne : ms ≠ []) :
+/-- the member-listing reply of the set commands, spelled out: the header `*N\r\n` (terminated for every
+    `N`, 0 included — the bare `*0` of class `empty-array-without-terminator` was repaired upstream), then one
+    bulk string per member in an order left to Go map iteration -/
+theorem setArrReply_eq (ms : List Bytes) : setArrReply ms = .okPerm (arrHdr ms.length) (ms.map bulkStr) := rfl
+
+/-- **SMEMBERS reports the current members**, for every stored set, the empty one included: an array of
+    exactly the members, one bulk string each, in an order left to Go map iteration. (Was `smembers_partial`
+    with a non-emptiness hypothesis; the empty-array deviation was repaired upstream.) -/
+theorem smembers_reports (c : Ctx) (s : State) (k : Bytes) (ms : List Bytes) (ex : Option Int)
+    (h : s.lookup c.db k = some ⟨.set 0 ms, ex⟩) (hlive : (⟨.set 0 ms, ex⟩ : Entry).expired c.now = false) :
     (handleSMembers c [b "smembers", k]).run c s = (s, .done (.okPerm (arrHdr ms.length) (ms.map bulkStr))) := by
   unfold handleSMembers
   have ha : ([b "smembers", k].length == 2) = true := rfl
   rw [ha, run_withSet_live c s _ k _ ms ex _ _ _ h hlive]
-  cases ms with
-  | nil => exact absurd rfl hne
-  | cons m r => simp [setArrReply]
+  simp [setArrReply]
+
+/-- SMEMBERS of a stored empty set (what SADD then SREM of the same member leaves) answers the terminated
+    empty array `*0\r\n` and changes nothing (repaired upstream: was the bare `*0`) -/
+theorem smembers_empty_set (c : Ctx) (s : State) (k : Bytes) (ex : Option Int)
+    (h : s.lookup c.db k = some ⟨.set 0 [], ex⟩) (hlive : (⟨.set 0 [], ex⟩ : Entry).expired c.now = false) :
+    (handleSMembers c [b "smembers", k]).run c s = (s, .done (.okPerm (b "*0\r\n") [])) := by
+  have := smembers_reports c s k [] ex h hlive
+  rw [this]; rfl
 
 /-- SMEMBERS on an absent key replies the (terminated) empty array -/
 theorem smembers_absent (c : Ctx) (s : State) (k : Bytes) (h : s.lookup c.db k = none) :
@@ -270,17 +280,17 @@ theorem sdiff_two (c : Ctx) (s : State) (k1 k2 : Bytes) (bm om : List Bytes) (e1
     (h1 : s.lookup c.db k1 = some ⟨.set 0 bm, e1⟩) (l1 : (⟨.set 0 bm, e1⟩ : Entry).expired c.now = false)
     (h2 : s.lookup c.db k2 = some ⟨.set 0 om, e2⟩) (l2 : (⟨.set 0 om, e2⟩ : Entry).expired c.now = false) :
     (handleSDiff false c [b "sdiff", k1, k2]).run c s =
-      (s, .done (setArrReply (bm.filter fun m => !om.contains m))) := by
+      (s, .done (.okPerm (arrHdr (bm.filter fun m => !om.contains m).length) ((bm.filter fun m => !om.contains m).map bulkStr))) := by
   simp [handleSDiff, keysExist_pair, h1, getValues_live _ _ _ _ h1 l1, getValues_live _ _ _ _ h2 l2, asSet?,
-    collectSets, subtract]
+    collectSets, subtract, setArrReply]
 
 /-- **an absent key never contributes members**: SDIFF base other with `other` absent answers the base set -/
 theorem sdiff_other_absent (c : Ctx) (s : State) (k1 k2 : Bytes) (bm : List Bytes) (e1 : Option Int)
     (h1 : s.lookup c.db k1 = some ⟨.set 0 bm, e1⟩) (l1 : (⟨.set 0 bm, e1⟩ : Entry).expired c.now = false)
     (h2 : s.lookup c.db k2 = none) :
-    (handleSDiff false c [b "sdiff", k1, k2]).run c s = (s, .done (setArrReply bm)) := by
+    (handleSDiff false c [b "sdiff", k1, k2]).run c s = (s, .done (.okPerm (arrHdr bm.length) (bm.map bulkStr))) := by
   simp [handleSDiff, keysExist_pair, h1, getValues_live _ _ _ _ h1 l1, getValues_absent _ _ _ h2, asSet?,
-    collectSets, subtract_nil]
+    collectSets, subtract_nil, setArrReply]
 
 /-- SDIFF with an absent base key is an error (SugarDB's choice; Redis answers the empty array), state
     unchanged -/
@@ -311,12 +321,12 @@ theorem sdiffstore_two (c : Ctx) (s : State) (d k1 k2 : Bytes) (bm om : List Byt
 theorem sdiff_many (c : Ctx) (s : State) (base : Bytes) (others bm : List Bytes) (e1 : Option Int)
     (h1 : s.lookup c.db base = some ⟨.set 0 bm, e1⟩) (l1 : (⟨.set 0 bm, e1⟩ : Entry).expired c.now = false)
     (ho : ∀ k, k ∈ others → SetOrAbsent c s k) :
-    ∃ r, (handleSDiff false c (b "sdiff" :: base :: others)).run c s = (s, .done (setArrReply r)) ∧
+    ∃ r : List Bytes, (handleSDiff false c (b "sdiff" :: base :: others)).run c s = (s, .done (.okPerm (arrHdr r.length) (r.map bulkStr))) ∧
       (∀ x, x ∈ r ↔ x ∈ bm ∧ ∀ k ms, k ∈ others → membersAt s c.db k = some ms → x ∉ ms) ∧
       (bm.Nodup → r.Nodup) := by
   refine ⟨subtract bm (others.filterMap (membersAt s c.db)), ?_, ?_, nodup_subtract bm _⟩
   · have f : ¬ (others.length + 1 + 1 < 2) := by omega
-    simp [handleSDiff, f, keysExist, h1, getValues_live _ _ _ _ h1 l1, asSet?, run_collectSets c s others _ ho]
+    simp [handleSDiff, f, keysExist, h1, getValues_live _ _ _ _ h1 l1, asSet?, run_collectSets c s others _ ho, setArrReply]
   · intro x
     rw [mem_subtract]
     simp only [List.mem_filterMap]
@@ -362,7 +372,7 @@ theorem sinter_two (c : Ctx) (s : State) (k1 k2 : Bytes) (m1 m2 : List Bytes) (e
     (hne : k1 ≠ k2)
     (h1 : s.lookup c.db k1 = some ⟨.set 0 m1, e1⟩) (l1 : (⟨.set 0 m1, e1⟩ : Entry).expired c.now = false)
     (h2 : s.lookup c.db k2 = some ⟨.set 0 m2, e2⟩) (l2 : (⟨.set 0 m2, e2⟩ : Entry).expired c.now = false) :
-    ∃ r, (handleSInter 0 c [b "sinter", k1, k2]).run c s = (s, .done (setArrReply r)) ∧
+    ∃ r : List Bytes, (handleSInter 0 c [b "sinter", k1, k2]).run c s = (s, .done (.okPerm (arrHdr r.length) (r.map bulkStr))) ∧
       (∀ x, x ∈ r ↔ x ∈ m1 ∧ x ∈ m2) ∧ (m1.Nodup → m2.Nodup → r.Nodup) := by
   have hrun : (handleSInter 0 c [b "sinter", k1, k2]).run c s =
       (interLoop (nthPerm c.order [(k1, true), (k2, true)]) (.ok (b "*0\r\n"))
@@ -372,11 +382,11 @@ theorem sinter_two (c : Ctx) (s : State) (k1 k2 : Bytes) (m1 m2 : List Bytes) (e
   rcases nthPerm_pair c.order (k1, true) (k2, true) with hp | hp
   · rw [hp, run_interLoop_two c s k1 k2 m1 m2 e1 e2 _ _ h1 l1 h2 l2]
     refine ⟨inter2 0 m1 m2, ?_, mem_inter2_zero m1 m2, fun hn _ => nodup_inter2_zero m1 m2 hn⟩
-    simp [sinterTail, interAll]
+    simp [sinterTail, interAll, setArrReply]
   · rw [hp, run_interLoop_two c s k2 k1 m2 m1 e2 e1 _ _ h2 l2 h1 l1]
     refine ⟨inter2 0 m2 m1, ?_, fun x => (mem_inter2_zero m2 m1 x).trans And.comm,
       fun _ hn => nodup_inter2_zero m2 m1 hn⟩
-    simp [sinterTail, interAll]
+    simp [sinterTail, interAll, setArrReply]
 
 /-- **an absent operand empties the intersection**: SINTER k1 k2 with `k2` absent answers the (terminated)
     empty array, state unchanged, whatever the operand order -/
@@ -425,9 +435,9 @@ theorem sinterstore_two (c : Ctx) (s : State) (d k1 k2 : Bytes) (m1 m2 : List By
 /-- **SINTER of one key** answers that set's members, state unchanged -/
 theorem sinter_single (c : Ctx) (s : State) (k : Bytes) (ms : List Bytes) (ex : Option Int)
     (h : s.lookup c.db k = some ⟨.set 0 ms, ex⟩) (hlive : (⟨.set 0 ms, ex⟩ : Entry).expired c.now = false) :
-    (handleSInter 0 c [b "sinter", k]).run c s = (s, .done (setArrReply ms)) := by
+    (handleSInter 0 c [b "sinter", k]).run c s = (s, .done (.okPerm (arrHdr ms.length) (ms.map bulkStr))) := by
   simp [handleSInter, sinterReads, keysExist_single, h, sinterLimit, nthPerm_single, interLoop,
-    getValues_live _ _ _ _ h hlive, asSet?, sinterTail, interAll]
+    getValues_live _ _ _ _ h hlive, asSet?, sinterTail, interAll, setArrReply]
 
 /-- the key names a SINTERCARD command line can carry without being mistaken for the LIMIT keyword -/
 def PlainKey (k : Bytes) : Prop := isAscii k = true ∧ eqFold k (b "limit") = false
@@ -511,9 +521,9 @@ theorem sintercard_absent_operand (c : Ctx) (s : State) (k1 k2 : Bytes) (m1 : Li
 /-- **SUNION of one key** answers that set's members, state unchanged -/
 theorem sunion_single (c : Ctx) (s : State) (k : Bytes) (ms : List Bytes) (ex : Option Int)
     (h : s.lookup c.db k = some ⟨.set 0 ms, ex⟩) (hlive : (⟨.set 0 ms, ex⟩ : Entry).expired c.now = false) :
-    (handleSUnion false c [b "sunion", k]).run c s = (s, .done (setArrReply ms)) := by
+    (handleSUnion false c [b "sunion", k]).run c s = (s, .done (.okPerm (arrHdr ms.length) (ms.map bulkStr))) := by
   simp [handleSUnion, getValues_live _ _ _ _ h hlive, nthPerm_single, asSet?, Val.oid, sunionTail, unionObjs,
-    writeBack]
+    writeBack, setArrReply]
 
 /-- **SUNION k1 k2** (distinct keys, both live sets): the reply lists exactly the members of either set,
     whatever the operand order. (Nothing is claimed about the state: see `sunion_mutates_operand_witness`.) -/
@@ -521,18 +531,18 @@ theorem sunion_two_reply (c : Ctx) (s : State) (k1 k2 : Bytes) (m1 m2 : List Byt
     (hne : k1 ≠ k2)
     (h1 : s.lookup c.db k1 = some ⟨.set 0 m1, e1⟩) (l1 : (⟨.set 0 m1, e1⟩ : Entry).expired c.now = false)
     (h2 : s.lookup c.db k2 = some ⟨.set 0 m2, e2⟩) (l2 : (⟨.set 0 m2, e2⟩ : Entry).expired c.now = false) :
-    ∃ r, ((handleSUnion false c [b "sunion", k1, k2]).run c s).2 = .done (setArrReply r) ∧
+    ∃ r : List Bytes, ((handleSUnion false c [b "sunion", k1, k2]).run c s).2 = .done (.okPerm (arrHdr r.length) (r.map bulkStr)) ∧
       (∀ x, x ∈ r ↔ x ∈ m1 ∨ x ∈ m2) ∧ (m1.Nodup → m2.Nodup → r.Nodup) := by
   have hg := getValues_live2 c s k1 k2 _ _ h1 l1 h2 l2
   rcases nthPerm_pair c.order (k1, Val.set 0 m1) (k2, Val.set 0 m2) with hp | hp
   · refine ⟨(setAdd m1 m2).1, ?_, mem_setAdd m1 m2, fun hn _ => nodup_setAdd m1 m2 hn⟩
     by_cases hq : m1 = (setAdd m1 m2).1
-    · simp [handleSUnion, eraseDups_pair k1 k2 hne, hg, hp, asSet?, Val.oid, sunionTail, unionObjs, writeBack, ← hq]
-    · simp [handleSUnion, eraseDups_pair k1 k2 hne, hg, hp, asSet?, Val.oid, sunionTail, unionObjs, writeBack, hq]
+    · simp [handleSUnion, eraseDups_pair k1 k2 hne, hg, hp, asSet?, Val.oid, sunionTail, unionObjs, writeBack, setArrReply, ← hq]
+    · simp [handleSUnion, eraseDups_pair k1 k2 hne, hg, hp, asSet?, Val.oid, sunionTail, unionObjs, writeBack, setArrReply, hq]
   · refine ⟨(setAdd m2 m1).1, ?_, fun x => (mem_setAdd m2 m1 x).trans Or.comm, fun _ hn => nodup_setAdd m2 m1 hn⟩
     by_cases hq : m2 = (setAdd m2 m1).1
-    · simp [handleSUnion, eraseDups_pair k1 k2 hne, hg, hp, asSet?, Val.oid, sunionTail, unionObjs, writeBack, ← hq]
-    · simp [handleSUnion, eraseDups_pair k1 k2 hne, hg, hp, asSet?, Val.oid, sunionTail, unionObjs, writeBack, hq]
+    · simp [handleSUnion, eraseDups_pair k1 k2 hne, hg, hp, asSet?, Val.oid, sunionTail, unionObjs, writeBack, setArrReply, ← hq]
+    · simp [handleSUnion, eraseDups_pair k1 k2 hne, hg, hp, asSet?, Val.oid, sunionTail, unionObjs, writeBack, setArrReply, hq]
 
 /-- **SUNIONSTORE dest k1 k2** (distinct operands, both live sets; `dest` arbitrary): the destination is
     replaced by a set object whose members are exactly those of either operand, and the reply is its size.
@@ -706,14 +716,14 @@ theorem spop_core_all (c : Ctx) (s : State) (k : Bytes) (rest ms : List Bytes) (
     (hlen : rest.length ≤ 1) (hc : countArg (b "spop" :: k :: rest) = .ok n)
     (h : s.lookup c.db k = some ⟨.set 0 ms, ex⟩) (hlive : (⟨.set 0 ms, ex⟩ : Entry).expired c.now = false)
     (h0 : n ≠ 0) (hge : ms.length ≤ n.natAbs) :
-    ∃ s', (handleSPop c (b "spop" :: k :: rest)).run c s = (s', .done (setArrReply ms)) ∧
+    ∃ s', (handleSPop c (b "spop" :: k :: rest)).run c s = (s', .done (.okPerm (arrHdr ms.length) (ms.map bulkStr))) ∧
       s'.lookup c.db k = some ⟨.set 0 [], ex⟩ ∧
       ∀ k2, k ≠ k2 → s'.lookup c.db k2 = s.lookup c.db k2 := by
   refine ⟨mutObj s c.db k (.set 0 []), ?_,
     lookup_mutObj_same _ _ _ _ _ _ h, fun k2 hne => lookup_mutObj_other _ _ _ _ _ _ _ h hne⟩
   have f1 : ¬ (rest.length + 1 + 1 < 2) := by omega
   have f2 : ¬ (rest.length + 1 + 1 > 3) := by omega
-  simp [handleSPop, f1, f2, h0, hge, hc, keysExist_single, h, getValues_live _ _ _ _ h hlive, asSet?]
+  simp [handleSPop, f1, f2, h0, hge, hc, keysExist_single, h, getValues_live _ _ _ _ h hlive, asSet?, setArrReply]
 
 /-- **SPOP k count** (count text reads as integer `n`, `0 < |n| < |set|`, duplicate-free set): a correctly
     sized selection of current members — pairwise distinct for a positive count — is returned and exactly
@@ -753,7 +763,7 @@ theorem spop_count_all (c : Ctx) (s : State) (k cnt : Bytes) (ms : List Bytes) (
     (hcnt : adaptType cnt = .int n)
     (h : s.lookup c.db k = some ⟨.set 0 ms, ex⟩) (hlive : (⟨.set 0 ms, ex⟩ : Entry).expired c.now = false)
     (h0 : n ≠ 0) (hge : ms.length ≤ n.natAbs) :
-    ∃ s', (handleSPop c [b "spop", k, cnt]).run c s = (s', .done (setArrReply ms)) ∧
+    ∃ s', (handleSPop c [b "spop", k, cnt]).run c s = (s', .done (.okPerm (arrHdr ms.length) (ms.map bulkStr))) ∧
       s'.lookup c.db k = some ⟨.set 0 [], ex⟩ ∧ ∀ k2, k ≠ k2 → s'.lookup c.db k2 = s.lookup c.db k2 :=
   spop_core_all c s k [cnt] ms n ex (by simp) (countArg_int _ _ _ _ hcnt) h hlive h0 hge
 
@@ -778,19 +788,31 @@ theorem srandmember_one (c : Ctx) (s : State) (k : Bytes) (ms : List Bytes) (ex 
   have f5 : ¬ (ms.length ≤ 1) := by omega
   simp [handleSRandMember, countArg_none, f5, keysExist_single, h, getValues_live _ _ _ _ h hlive, asSet?]
 
-/-- **SRANDMEMBER k count with a positive count ≥ |set|** (non-empty set): all current members, state unchanged -/
+/-- **SRANDMEMBER k count with `count ≠ 0` and `|count| ≥ |set|`**: all current members (none for the empty set:
+    the terminated `*0\r\n`), state unchanged. For a negative count see `srandmember_negative_count_capped_witness`. -/
 theorem srandmember_count_all (c : Ctx) (s : State) (k cnt : Bytes) (ms : List Bytes) (n : Int) (ex : Option Int)
     (hcnt : adaptType cnt = .int n)
     (h : s.lookup c.db k = some ⟨.set 0 ms, ex⟩) (hlive : (⟨.set 0 ms, ex⟩ : Entry).expired c.now = false)
     (h0 : n ≠ 0) (hge : ms.length ≤ n.natAbs) :
-    (handleSRandMember c [b "srandmember", k, cnt]).run c s = (s, .done (setArrReply ms)) := by
-  simp [handleSRandMember, countArg_int _ _ _ _ hcnt, h0, hge, keysExist_single, h, getValues_live _ _ _ _ h hlive, asSet?]
+    (handleSRandMember c [b "srandmember", k, cnt]).run c s = (s, .done (.okPerm (arrHdr ms.length) (ms.map bulkStr))) := by
+  simp [handleSRandMember, countArg_int _ _ _ _ hcnt, h0, hge, keysExist_single, h, getValues_live _ _ _ _ h hlive, asSet?, setArrReply]
 
 /-- SPOP / SRANDMEMBER on an absent key answer the null array and change nothing -/
 theorem spop_srandmember_absent (c : Ctx) (s : State) (k : Bytes) (h : s.lookup c.db k = none) :
     (handleSPop c [b "spop", k]).run c s = (s, .done (.ok (b "*-1\r\n"))) ∧
     (handleSRandMember c [b "srandmember", k]).run c s = (s, .done (.ok (b "*-1\r\n"))) := by
   constructor <;> simp [handleSPop, handleSRandMember, countArg_none, keysExist_single, h]
+
+/-- **a count of 0 selects nothing**: SPOP k 0 and SRANDMEMBER k 0 on any stored set answer the terminated
+    empty array `*0\r\n` and leave the state unchanged (repaired upstream: both answered the bare `*0`) -/
+theorem spop_srandmember_zero_count (c : Ctx) (s : State) (k cnt : Bytes) (ms : List Bytes) (ex : Option Int)
+    (hcnt : adaptType cnt = .int 0)
+    (h : s.lookup c.db k = some ⟨.set 0 ms, ex⟩) (hlive : (⟨.set 0 ms, ex⟩ : Entry).expired c.now = false) :
+    (handleSPop c [b "spop", k, cnt]).run c s = (s, .done (.ok (b "*0\r\n"))) ∧
+    (handleSRandMember c [b "srandmember", k, cnt]).run c s = (s, .done (.ok (b "*0\r\n"))) := by
+  constructor <;>
+    simp [handleSPop, handleSRandMember, countArg_int _ _ _ _ hcnt, keysExist_single, h,
+      getValues_live _ _ _ _ h hlive, asSet?]
 
 /-! ### composed laws: the STORE variants and SMOVE read back -/
 
@@ -932,20 +954,20 @@ theorem sadd_new_key_counts_duplicates_witness :
     let r := (handleSAdd c [b "sadd", b "k", b "a", b "a"]).run c { dbs := [], mem := 0 }
     r.2 = .done (.ok (b ":2\r\n")) ∧ r.1.lookup 0 (b "k") = some ⟨.set 0 [b "a"], none⟩ := by decide
 
-/-- class `empty-array-without-terminator`: SADD k a; SREM k a leaves a stored empty set, on which SMEMBERS
-    answers the bare `*0` without CR LF -/
-theorem smembers_empty_set_witness :
+/-- repaired upstream (was the witness of class `empty-array-without-terminator`): SADD k a; SREM k a leaves a
+    stored empty set, on which SMEMBERS now answers the terminated empty array -/
+theorem smembers_empty_set_replay :
     let c : Ctx := { db := 0, now := 1000 }
     let s1 := ((handleSAdd c [b "sadd", b "k", b "a"]).run c { dbs := [], mem := 0 }).1
     let s2 := ((handleSRem c [b "srem", b "k", b "a"]).run c s1).1
     s2.lookup 0 (b "k") = some ⟨.set 0 [], none⟩ ∧
-    ((handleSMembers c [b "smembers", b "k"]).run c s2).2 = .done (.ok (b "*0")) := by decide
+    ((handleSMembers c [b "smembers", b "k"]).run c s2).2 = .done (.okPerm (b "*0\r\n") []) := by decide
 
-/-- class `empty-array-without-terminator` again: SPOP k 0 answers the bare `*0` -/
-theorem spop_zero_count_witness :
+/-- repaired upstream (was `spop_zero_count_witness`): SPOP k 0 answers `*0\r\n` and removes nothing -/
+theorem spop_zero_count_replay :
     let c : Ctx := { db := 0, now := 1000 }
     let s : State := { dbs := [(0, ⟨[(b "k", ⟨.set 0 [b "a", b "b"], none⟩)], []⟩)], mem := 0 }
-    (handleSPop c [b "spop", b "k", b "0"]).run c s = (s, .done (.ok (b "*0"))) := by decide
+    (handleSPop c [b "spop", b "k", b "0"]).run c s = (s, .done (.ok (b "*0\r\n"))) := by decide
 
 /-- class `sintercard-single-key-ignores-limit`: SINTERCARD k LIMIT 1 on a two-member set answers 2 -/
 theorem sintercard_single_key_ignores_limit_witness :
@@ -1037,7 +1059,8 @@ example := smismember_reports c0 s0 (b "k") [b "a", b "b", b "c"] [b "a", b "x"]
 example := smismember_absent c0 s0 (b "z") [b "a", b "x"] (by decide) (by decide)
 example := scard_reports c0 s0 (b "j") [b "b", b "d"] (some 2000) (by decide) (by decide)
 example := scard_absent c0 s0 (b "z") (by decide)
-example := smembers_partial c0 s0 (b "k") [b "a", b "b", b "c"] none (by decide) (by decide) (by decide)
+example := smembers_reports c0 s0 (b "k") [b "a", b "b", b "c"] none (by decide) (by decide)
+example := spop_srandmember_zero_count c0 s0 (b "k") (b "0") [b "a", b "b", b "c"] none (by decide) (by decide) (by decide)
 example := smembers_absent c0 s0 (b "z") (by decide)
 example := sismember_after_sadd c0 s0 (b "k") (b "d") [b "a", b "b", b "c"] [b "c", b "d"] none
   (by decide) (by decide) (by decide)
